@@ -115,7 +115,7 @@ CLAIMS = {
          "Needs the hook tier (exit 2 without it). A malformed value leaves its register unspecified in the model."),
  "C18": ("Default frames for all 40 versions x 3 shapes x margins 0..16 (and 17, 33, 64, 120) (one event per (shape, margin) holding all versions: centred, module-aligned, below 40%, clear of the finder boxes, image centred and not larger, side monotone in the version); 420 / 6 000 explicit size / gap / position overrides on quarter-module and arbitrary 3-decimal values with tolerances derived from the two-decimal printing, a quarter of them drawn from the whole legal range (images from 0.01 module to three times the drawing, gaps up to a symbol side, positions anywhere and slightly outside); through the raster builder: explicit size, gap and position (x different from y) decide which cells show the frame colour.",
          "Overrides are sampled."),
- "C19": ("TLC explores the to_file machine under every fault class x strike offset and exports the 29 behaviours; each is replayed with real faults (missing directory, directory, path below a file, /proc, over-long name, symlink loop, /dev/full, RLIMIT_FSIZE at byte k) for both renderers on four option sets; Ok must coincide with 'no fault struck' and with the file holding exactly the in-memory rendering. The target is pre-populated with nothing / a shorter / a longer file; ten kinds of unusual legal names (spaces, unicode, leading dash, no extension, relative, through a symlink, 255 bytes); FileIO2.tla: two calls in flight on different paths of one directory, every interleaving, invariant Independent - its 200 pairs replayed on two threads released by a barrier, then 60 / 400 race rounds of four simultaneous writes.",
+ "C19": ("TLC explores the to_file machine under every fault class x strike offset and exports the 41 behaviours; each is replayed with real faults (missing directory, directory, path below a file, /proc, over-long name, symlink loop, /dev/full, RLIMIT_FSIZE at byte k) for both renderers on four option sets; Ok must coincide with 'no fault struck' and with the file holding exactly the in-memory rendering. The target is pre-populated with nothing / a shorter / a longer / an equally long file / an equally long file with the same first bytes; ten kinds of unusual legal names (spaces, unicode, leading dash, no extension, relative, through a symlink, 255 bytes); FileIO2.tla: two calls in flight on different paths of one directory, every interleaving, invariant Independent - its 200 pairs replayed on two threads released by a barrier, then 60 / 400 race rounds of four simultaneous writes.",
          "Write-time offsets are abstracted to five classes (0, 1, middle, len-1, len); 64 offsets are swept in thorough."),
 }
 
